@@ -16,7 +16,15 @@ for f in sorted(glob.glob(os.path.join(ROOT, "seeded", "*", "meta.json"))):
             else ("no-failing-input-found" if c.get("detected") else "MISSED"))
     summ = re.sub(r"\s+", " ", d.get("summary", ""))[:150].replace("|", "/")
     needs = re.sub(r"\s+", " ", d.get("needs", ""))[:110].replace("|", "/")
-    rows.append(f"| {c.get('name')} | {summ} | {needs} | ./check {d.get('breaks_property')} ({tier}) | {kind} |")
+    # seeded/<name>/note.json (hand-written, never touched by seed_eval.py): {"also": "...", "remark": "..."}
+    note = {}
+    nf = os.path.join(os.path.dirname(f), "note.json")
+    if os.path.exists(nf):
+        note = json.load(open(nf))
+    by = f"./check {d.get('breaks_property')} ({tier})" + (f"; {note['also']}" if note.get("also") else "")
+    if note.get("remark"):
+        kind += " — " + note["remark"].replace("|", "/")
+    rows.append(f"| {c.get('name')} | {summ} | {needs} | {by} | {kind} |")
 table = ("| seeded change | what it does | needs | caught by | how |\n|---|---|---|---|---|\n" + "\n".join(rows) + "\n")
 p = os.path.join(ROOT, "DESIGN.md")
 s = open(p).read()
